@@ -1,4 +1,5 @@
 import LayerModel.Lemmas.Ante
+import LayerModel.Gen.Formulas
 
 /-!
 # C18 — staking transactions cannot move bonded stake more than 5 % per 12-hour period
@@ -28,6 +29,11 @@ theorem C18_bounds_imply_percent (base x : Int) (hb : 0 ≤ base) :
   have h1 : Int.tdiv base 20 = base / 20 := Int.tdiv_eq_ediv_of_nonneg hb
   rw [h1]
   constructor <;> intro h <;> omega
+
+/-- **C18 (the bounds are the code's formulas).** `allowedLowerBound` / `allowedUpperBound` as
+regenerated from x/reporter/ante/ante.go on every run are the model's `lower` / `upper`. -/
+theorem C18_formulas : (∀ b, lower b = Layer.Gen.anteLower b) ∧ (∀ b, upper b = Layer.Gen.anteUpper b) :=
+  ⟨fun _ => rfl, fun _ => rfl⟩
 
 /-- Non-vacuity: a two-message transaction that is admitted and meets the hypotheses. -/
 example : handle (some 1000) 1000 [.inc 20, .other, .undel 30, .inc 30] = true ∧
